@@ -82,7 +82,7 @@ fn frustum_check<S: BaseFloat + Debug>(l: S, r: S, b: S, t: S, n: S, f: S, pt: [
     }
     let c = m * Vector4::new(pt[0], pt[1], pt[2], o);
     ensure_r!(close(c.w, -pt[2], tol), "frustum-w", "frustum: w = {:?} for z = {:?} (must be -z)", c.w, pt[2]);
-    ensure_r!(m.rm().max_abs_diff(&ref_frustum(l, r, b, t, n, f)) <= tol * (o + (f / (f - n)).abs() * (o + f)), "frustum-table", "frustum matrix differs from the glFrustum table: {:?}", m);
+    ensure_r!(m.rm().max_abs_diff(&ref_frustum(l, r, b, t, n, f)) <= tol * (o + (f / (f - n)).abs() * (o + f.abs())), "frustum-table", "frustum matrix differs from the glFrustum table: {:?}", m);
     Ok(())
 }
 
@@ -163,12 +163,15 @@ fn frustum_exact(d: &mut Draw) -> Outcome {
     let r = l + pos_q(d);
     let b = <Q as Sc>::gen(d);
     let t = b + pos_q(d);
-    let n = pos_q(d);
-    let f = n + pos_q(d);
+    // the constructor's stated preconditions are l <= r, b <= t, n <= f and nothing else: a near plane behind the eye
+    // (n < 0, with the far plane on either side) is a valid tuple, and the algebra of the statement holds for it
+    let behind = d.chance(1, 4);
+    let n = if behind { -pos_q(d) } else { pos_q(d) };
+    let f = { let f = n + pos_q(d); if f == Q::ZERO { f + Q::ONE } else { f } };
     let pt = [<Q as Sc>::gen(d), <Q as Sc>::gen(d), -pos_q(d)];
     d.note("l,r,b,t,n,f", &(l, r, b, t, n, f));
     vcore::tryo!(frustum_check(l, r, b, t, n, f, pt, Q::ZERO));
-    pass(if l + r == Q::ZERO || b + t == Q::ZERO { "symmetric" } else { "off-centre" }, true)
+    pass(if behind && f > Q::ZERO { "near-behind-far-ahead" } else if behind { "both-planes-behind" } else if l + r == Q::ZERO || b + t == Q::ZERO { "symmetric" } else { "off-centre" }, true)
 }
 
 fn perspective_exact(d: &mut Draw) -> Outcome {
@@ -225,6 +228,16 @@ fn mapping_f64(d: &mut Draw) -> Outcome {
     d.note("l,r,b,t,n,f", &(l, r, b, t, n, f));
     vcore::tryo!(ortho_check(l, r, b, t, n, f, mix, tol));
     vcore::tryo!(frustum_check(l, r, b, t, n, f, [d.f64_in(-9.0, 9.0), d.f64_in(-9.0, 9.0), -d.f64_log(1e-2, 1e3)], tol));
+    // frustum's preconditions do not mention the sign of the planes: near behind the eye, far on either side of it
+    if d.chance(1, 4) {
+        let nb = -d.f64_log(1e-2, 1e2);
+        let fb = nb + gap(d, nb);
+        let fb = if fb.abs() < 1e-3 * nb.abs() { fb + nb.abs() } else { fb };
+        d.note("frustum with the near plane behind the eye: n, f", &(nb, fb));
+        // (the corner tolerance is relative to the clip coordinates' own size, which f/(f-n) and n/(f-n) set)
+        let cond = 1.0 + (nb.abs() + fb.abs()) / (fb - nb) * (1.0 + (nb.abs() + fb.abs()) / nb.abs().min(fb.abs()));
+        vcore::tryo!(frustum_check(l, r, b, t, nb, fb, [d.f64_in(-9.0, 9.0), d.f64_in(-9.0, 9.0), -d.f64_log(1e-2, 1e3)], tol * cond));
+    }
     // the whole valid range (0, pi), including very narrow and very wide fields of view
     let fovy = match d.int(0, 3) {
         0 => d.f64_log(1e-9, 1e-2),
@@ -476,7 +489,7 @@ pub fn property() -> Property {
     }
     add!("ortho-Q", "Q", ortho_exact::<Q>, 3000, 200_000, 40, &[("valid", 500)], "all six plane parameters non-zero");
     add!("ortho-Fp", "Fp", ortho_exact::<Fp>, 3000, 200_000, 40, &[("valid", 500)], "all six plane parameters non-zero");
-    add!("frustum-Q", "Q", frustum_exact, 3000, 200_000, 40, &[("off-centre", 300)], "every valid tuple (l<r, b<t, 0<n<f)");
+    add!("frustum-Q", "Q", frustum_exact, 3000, 200_000, 40, &[("off-centre", 300), ("near-behind-far-ahead", 40), ("both-planes-behind", 40)], "every valid tuple (l<r, b<t, n<f, neither plane through the eye; the near plane behind the eye one time in four)");
     add!("perspective-Q", "Q", perspective_exact, 3000, 200_000, 32, &[("ordinary", 200), ("negative-aspect", 50), ("far<near", 20)], "every valid tuple");
     add!("planar-Q", "Q", planar_exact, 3000, 200_000, 40, &[("focal-behind", 200), ("focal-in-front", 100)], "every valid tuple");
     add!("mapping-f64", "f64", mapping_f64, 6000, 300_000, 112, &[("planar-orthographic", 100), ("planar-focal-behind", 100), ("planar-focal-in-front", 100)], "every valid tuple");
@@ -491,7 +504,7 @@ pub fn property() -> Property {
         title: "Projections map the view volume onto the clip cube and reject bad parameters",
         subchecks: s,
         assumptions: &[
-            "valid domain: l<r, b<t, 0<n<f (frustum), gaps at least 1e-3 relative in f64; fovy over the whole valid range (0, pi): uniform in (0.01, pi-0.01) in half of the cases, log-uniform 1e-9..1e-2 rad away from either end otherwise; |aspect| in [0.1,10]; planar: height>0, near != far of either order/sign, focal point strictly outside the planes",
+            "valid domain: l<r, b<t, n<f with n and f non-zero and of either sign (frustum: its stated preconditions say nothing about the sign of the planes), gaps at least 1e-3 relative in f64; fovy over the whole valid range (0, pi): uniform in (0.01, pi-0.01) in half of the cases, log-uniform 1e-9..1e-2 rad away from either end otherwise; |aspect| in [0.1,10]; planar: height>0, near != far of either order/sign, focal point strictly outside the planes",
             "Q tier: fovy is a named angle with rational tan(fovy/2) > 0; planar with fovy = 0 only in f64 (the constructor takes the reciprocal of 0)",
             "scale: every valid tuple is also taken with all its lengths multiplied by 2^k, k in [-300,300] for ortho/frustum and [-30,300] for perspective/planar, which call planes closer than machine epsilon in absolute terms 'too close' (their documented assertion message) - such tuples are treated as outside their domain, not as rejections that must happen",
             "rejection: exactly one precondition broken, at the boundary value and beyond it; 'zero aspect' means exactly +-0.0, 'near = far' exactly equal",
